@@ -203,6 +203,11 @@ template <class G> static void direct_extras(Ctx& c, const Case& k, const char* 
     if (k.arcmode) l.ArcPosition(k.len, lo.lat2, lo.lon2, lo.azi2, lo.s12, lo.m12, lo.M12, lo.M21, lo.S12);
     else l.Position(k.len, lo.lat2, lo.lon2, lo.azi2, lo.m12, lo.M12, lo.M21, lo.S12);
     if (!same4(lo, lg, 7)) c.viol(std::string("law:C03/overload-differs-from-GenPosition/") + solver, k.cls, J(w).f("m12", lo.m12).f("m12_gen", lg.m12).f("S12", lo.S12).f("S12_gen", lg.S12));
+    // ... and so do the overloads that return only m12, or only M12 and M21 (added after seeded change C03-r5s2)
+    { Lib p1 = lg, p2 = lg; const double nan = std::numeric_limits<double>::quiet_NaN(); p1.m12 = nan; p2.M12 = p2.M21 = nan;
+      if (k.arcmode) { l.ArcPosition(k.len, p1.lat2, p1.lon2, p1.azi2, p1.s12, p1.m12); l.ArcPosition(k.len, p2.lat2, p2.lon2, p2.azi2, p2.s12, p2.M12, p2.M21); }
+      else { l.Position(k.len, p1.lat2, p1.lon2, p1.azi2, p1.m12); l.Position(k.len, p2.lat2, p2.lon2, p2.azi2, p2.M12, p2.M21); }
+      if (!same4(p1, lg, 1) || !same4(p2, lg, 2)) c.viol(std::string("law:C03/overload-differs-from-GenPosition/") + solver, k.cls, J(w).str("overload", "m12-only / M12,M21-only").f("m12", p1.m12).f("m12_gen", lg.m12).f("M12", p2.M12).f("M12_gen", lg.M12).f("M21", p2.M21).f("M21_gen", lg.M21)); }
     // a line made by GenDirectLine (DirectLine / ArcDirectLine) evaluated at its own end point gives the bits of Line() + GenPosition
     auto l3 = g.GenDirectLine(k.lat1, k.lon1, k.azi1, k.arcmode, k.len);
     Lib l3o = call_line(l3, k.arcmode, k.len);
